@@ -427,6 +427,15 @@ def run(ctx):
                             f"(lambda {v}, {w}: {b1})({w}={arg2}, {v}={arg1})", f"(lambda {v}, {w}: {b1})({arg1})", f"(lambda: e.pt)()",
                             f"(lambda {v}: {b1})(*e.xs)", f"(lambda {v}, {w}: {b1})({arg1}, {arg2})", f"(lambda {v}: (lambda {w}: {b1})({w}={v}))({arg1})"])
         cases.append((rng.choice(["Select", "SelectMany", "Where"]), shape, rng.choice(["str", "ast"])))
+    # method calls whose receiver is a constant or a value of builtin type (str / bytes / int / float methods, also through a
+    # called lambda, a tuple element, a conditional): nothing is known about them to the follower - emitted as written
+    for _ in range(ctx.n(40, 800)):
+        recv = rng.choice(["'a,b'", "'a b'", "'pt={}'", "b'xy'", "(12)", "(2.5)", "'abc'", "(lambda s: s)('a,b')", "('a,b', 1)[0]"])
+        call = rng.choice([".split(',')", ".split()", ".format(e.pt)", ".startswith(e.prefix)", ".bit_length()", ".hex()", ".upper()", ".join(e.names)",
+                           ".split(',', 1)", ".replace('a', e.x)", ".is_integer()", ".strip()", ".encode()", ".count('a')"])
+        wrap = rng.choice(["{}", "({}, e.x)", "{} == e.y", "e.f({})", "[{}]"])
+        op = rng.choice(["Select", "Select", "SelectMany"]) if "==" not in wrap else rng.choice(["Select", "Where"])
+        cases.append((op, wrap.format(recv + call), rng.choice(["str", "ast"])))
     # called lambdas whose LATER argument mentions a name spelled like an EARLIER parameter (the stream's own variable e, or
     # the parameter of an enclosing called lambda): arguments are typed in the enclosing scope, all of them, before any
     # parameter is bound (seed C10-w7-2) - the earlier argument is of another kind (dictionary literal, string, tuple)
